@@ -462,12 +462,31 @@ def run(scenario, world):
             n_pop = len(pm._population_model.get_parameter_names()) \
                 // pm.n_dim()
             pairs = [[p % n_pop, d % pm.n_dim()] for p, d in op['pairs']]
+            twin = copy.deepcopy(pm)
             r = call(pm.set_population_parameters, pairs)
             if is_exc(r):
                 fail('op.set_population_parameters', 'raises',
                      'pairs %s: %r\n%s' % (pairs, r, r.tb), step)
             if len(pairs) > 1:
                 world.probe('multi_pair_selection')
+            # the names describe the selection (a set of pairs), in the
+            # order of the parameter vector: listing the same pairs in
+            # another order, or re-stating the current dimension names, must
+            # not move a name to another entry
+            canon = sorted(set(tuple(x) for x in pairs))
+            r = call(twin.set_population_parameters, [list(x) for x in canon])
+            names = list(pm.get_parameter_names())
+            if not is_exc(r) and list(twin.get_parameter_names()) != names:
+                fail('pop.name_order', 'depends_on_listing_order',
+                     'pairs %s give %s, the same pairs listed as %s give %s'
+                     % (pairs, names, canon, twin.get_parameter_names()),
+                     step)
+            r = call(pm.set_dim_names, list(pm.get_dim_names()))
+            if not is_exc(r) and list(pm.get_parameter_names()) != names:
+                fail('pop.name_order', 'restating_dim_names_moves_names',
+                     'pairs %s: %s before, %s after set_dim_names('
+                     'get_dim_names())' % (
+                         pairs, names, pm.get_parameter_names()), step)
         elif o == 'wrap_composed':
             subs = [zoo.build_pop(r) for r in op['with']]
             for s in subs:
@@ -972,6 +991,9 @@ def _generate(rng, index, tier):
                                           'fixed'])
     llspec['times'] = [sorted(rng.sample(grid, rng.randint(1, 4)))
                        for _ in range(n_out)]
+    if n_out > 1 and rng.random() < 0.15:
+        # an output without measurements
+        llspec['times'][rng.randrange(n_out)] = []
     llspec['obs'] = [[round(rng.uniform(0.2, 2.0), 2) for _ in ts]
                      for ts in llspec['times']]
     if not use_toy:
